@@ -18,7 +18,7 @@ TARGET = dict(
 )
 META = dict(
     technique="model-based property testing (rapidcheck tapes -> stateful C executors) against an ordered-map reference model under ASan with exact-size, always-moving storage",
-    text="Generated histories of typed set/delete/dup/copy/import/cmp/iterate over up to 4 inline dictionaries (and over urefs through the generated attribute accessors) with generated manager parameters; names that are prefixes of one another or equal shorthand names, all 38 shorthands, value sizes up to the documented 64 KiB limit biased to slot-reuse, exact-fit and size-field boundaries, and values whose source pointer lies in the dictionary itself. Oracle: reference map keyed by (type, name) holding values in the harness' own representation; after every operation every watched key is looked up in every dictionary (typed, bit-exact incl. sign and IEEE bits), every dictionary is iterated (each present attribute exactly once), udict_cmp == 0 iff models equal (both argument orders), import = right-biased union, copy == dup, per-attribute cmp == 0 iff both absent or identical. Sampling.",
+    text="Generated histories of typed set/delete/dup/copy/import/cmp/iterate over up to 4 inline dictionaries (and over urefs through the generated attribute accessors) with generated manager parameters; names that are prefixes of one another or equal shorthand names, all 38 shorthands, value sizes up to the documented 64 KiB limit biased to slot-reuse, exact-fit and size-field boundaries, and values whose source pointer lies in the dictionary itself. Oracle: reference map keyed by (type, name) holding values in the harness' own representation; after every operation every watched key is looked up in every dictionary (typed, bit-exact incl. sign and IEEE bits), every dictionary is iterated (each present attribute exactly once), udict_cmp == 0 iff models equal (both argument orders), import = right-biased union, copy == dup, per-attribute cmp == 0 iff both absent or identical; the uref_attr layer also through match (bounds of every width), list, from_hex, _va, priv and fork accessors. Executor udict in allocation-fault mode: a refused allocation inside an operation may make it fail, and then a set leaves the value last stored, an import leaves each attribute old or new, and whatever reports success has taken effect completely. Sampling.",
     design_ref="DESIGN.md section 6, C10",
     note="allocation failures in the uref accessor layer, other udict managers than udict_inline, type codes outside enum udict_type (udict_inline_shorthand accepts the first code past its table: out-of-bounds read of the table, noted, not checked) and self-import are outside; signalling NaNs and INT64_MIN are outside the documented/portable domain and not generated",
 )
